@@ -609,9 +609,9 @@ Proof.
   apply (Steps_cons _ _ (mkSS (gs ++ [op_goroutine first op (calls ++ [c0])]) gotRaceOperationFunc [] idx)).
   - destruct Hst as [-> | ->]; reflexivity.
   - exact Hl1.
-  - rewrite (scan_op_func gs _ idx stt f c0 Hst Hpf), add_call_op_goroutine. reflexivity.
+  - rewrite (scan_op_func gs (op_goroutine first op calls) idx stt f c0 Hst Hpf), add_call_op_goroutine. reflexivity.
   - apply Steps_one; [reflexivity|exact Hl2|].
-    rewrite (scan_op_file gs _ idx f calls c0 (call_of_frame f) eq_refl Hfile), set_calls_op_goroutine.
+    rewrite (scan_op_file gs (op_goroutine first op (calls ++ [c0])) idx f calls c0 (call_of_frame f) eq_refl Hfile), set_calls_op_goroutine.
     reflexivity.
 Qed.
 
@@ -696,4 +696,173 @@ Proof.
   apply (Steps_cons _ _ (mkSS [] gotRaceHeader1 [] 0)); [reflexivity|reflexivity|reflexivity|].
   apply (Steps_cons _ _ (mkSS [] gotRaceHeader2 [] 0)); [reflexivity|reflexivity|reflexivity|].
   exact (Steps_app _ _ _ _ _ H1 H2).
+Qed.
+
+(* ------------------------------------------------------------------ *)
+(* 10. a creation section                                              *)
+(* ------------------------------------------------------------------ *)
+
+Lemma upd_nth_const : forall (A : Type) (h : A -> A) (l : list A) i x,
+  nth_error l i = Some x -> upd_nth i h l = upd_nth i (fun _ => h x) l.
+Proof.
+  intros A h l. induction l as [|a l IH]; intros [|i] x H; cbn [nth_error upd_nth] in *; try discriminate.
+  - injection H as ->. reflexivity.
+  - rewrite (IH i x H). reflexivity.
+Qed.
+
+Lemma upd_nth_twice : forall (A : Type) (h k : A -> A) (l : list A) i,
+  upd_nth i h (upd_nth i k l) = upd_nth i (fun x => h (k x)) l.
+Proof.
+  intros A h k l. induction l as [|a l IH]; intros [|i]; cbn [upd_nth]; try reflexivity.
+  rewrite IH. reflexivity.
+Qed.
+
+Lemma nth_error_upd_const : forall (A : Type) (l : list A) i x y,
+  nth_error l i = Some x -> nth_error (upd_nth i (fun _ => y) l) i = Some y.
+Proof. intros A l i x y H. apply (nth_error_upd_nth A (fun _ => y) l i x H). Qed.
+
+(* the goroutine of a creation section while the section is being read:
+   g0 with the State of the header and [calls] appended to its CreatedBy *)
+Definition cr_goroutine (g0 : Goroutine) (text : bytes) (calls : list Call) : Goroutine :=
+  set_created_calls (set_state g0 text) (Calls (CreatedBy (GSig g0)) ++ calls).
+
+Lemma set_state_cr : forall g0 text, set_state g0 text = cr_goroutine g0 text [].
+Proof.
+  intros [[s0 [c e] a b k l] i f w ad] text. unfold cr_goroutine, set_created_calls, set_created, set_state.
+  cbn [GSig State CreatedBy SleepMin SleepMax SStack Locked ID First RaceWrite RaceAddr Calls SElided].
+  rewrite app_nil_r. reflexivity.
+Qed.
+
+Lemma cr_created : forall g0 text calls,
+  Calls (CreatedBy (GSig (cr_goroutine g0 text calls))) = Calls (CreatedBy (GSig g0)) ++ calls.
+Proof. reflexivity. Qed.
+
+Lemma cr_set_created : forall g0 text calls calls',
+  set_created_calls (cr_goroutine g0 text calls) (Calls (CreatedBy (GSig g0)) ++ calls') = cr_goroutine g0 text calls'.
+Proof. reflexivity. Qed.
+
+(* the header of a creation section *)
+Lemma scan_creation_header : forall G stt idx c i g0,
+  stt = betweenRaceOperations \/ stt = betweenRaceGoroutines ->
+  rc_gid c < dec_limit ->
+  find_id (rc_gid c) 0 G = Some i -> nth_error G i = Some g0 ->
+  scan (mkSS G stt [] idx) (print_creation_header (rc_gid c) (rc_running c) ++ [LF]) =
+  Ok (mkSS (upd_nth i (fun _ => cr_goroutine g0 (race_state_text (rc_running c)) []) G)
+           gotRaceGoroutineHeader [] i, true, None).
+Proof.
+  intros G stt idx c i g0 Hst Hn Hfind Hnth.
+  rewrite (scan_line (mkSS G stt [] idx) _ eq_refl (creation_header_not_cr _ _)).
+  assert (Hstep : race_goroutine_step (mkSS G stt [] idx) (print_creation_header (rc_gid c) (rc_running c)) =
+                  Ok (mkSS (upd_nth i (fun _ => cr_goroutine g0 (race_state_text (rc_running c)) []) G)
+                           gotRaceGoroutineHeader [] i, true, None)).
+  { rewrite race_goroutine_step_unfold, match_race_goroutine_print, (atou_N_to_dec _ Hn).
+    cbn [goroutines sprefix]. rewrite Hfind.
+    rewrite (upd_nth_const _ (fun g => set_state g (race_state_text (rc_running c))) G i g0 Hnth).
+    rewrite set_state_cr. reflexivity. }
+  unfold scan_body. cbn [st]. destruct Hst as [-> | ->].
+  - rewrite match_race_prev_creation. cbn [race_op_header]. exact Hstep.
+  - exact Hstep.
+Qed.
+
+(* the function line, in a creation section *)
+Lemma scan_cr_func : forall G i g stt f c0 x,
+  stt = gotRaceGoroutineHeader \/ stt = gotRaceGoroutineFile ->
+  nth_error G i = Some x ->
+  parse_func (trim_left_space (race_func_line f)) = Ok (Some (c0, None)) ->
+  scan (mkSS (upd_nth i (fun _ => g) G) stt [] i) (race_func_line f ++ [LF]) =
+  Ok (mkSS (upd_nth i (fun _ => set_created_calls g (Calls (CreatedBy (GSig g)) ++ [c0])) G)
+           gotRaceGoroutineFunc [] i, true, None).
+Proof.
+  intros G i g stt f c0 x Hst Hnth Hpf.
+  rewrite (scan_line (mkSS (upd_nth i (fun _ => g) G) stt [] i) _ eq_refl (func_line_not_cr f)).
+  assert (Hstep : race_goroutine_func_step (mkSS (upd_nth i (fun _ => g) G) stt [] i) (race_func_line f) =
+                  Ok (mkSS (upd_nth i (fun _ => set_created_calls g (Calls (CreatedBy (GSig g)) ++ [c0])) G)
+                           gotRaceGoroutineFunc [] i, true, None)).
+  { unfold race_goroutine_func_step, func_step. rewrite Hpf. cbn [bind goroutines gindex].
+    rewrite (nth_error_upd_const _ G i x g Hnth). cbn [bind].
+    unfold with_gs, with_state, ret. cbn [goroutines st sprefix gindex].
+    rewrite upd_nth_twice. reflexivity. }
+  unfold scan_body. cbn [st]. destruct Hst as [-> | ->].
+  - exact Hstep.
+  - change (race_func_line f) with (32 :: 32 :: print_func_line (pf_sym f) (pf_args f) (pf_elided f)) at 1 2.
+    cbv iota.
+    replace (beq (32 :: 32 :: print_func_line (pf_sym f) (pf_args f) (pf_elided f)) race_header_footer)
+      with false by reflexivity.
+    exact Hstep.
+Qed.
+
+(* the file line, in a creation section *)
+Lemma scan_cr_file : forall G i g f cs c0 c' x,
+  nth_error G i = Some x ->
+  Calls (CreatedBy (GSig g)) = cs ++ [c0] ->
+  parse_file c0 (race_file_line f) = Some (c', None) ->
+  scan (mkSS (upd_nth i (fun _ => g) G) gotRaceGoroutineFunc [] i) (race_file_line f ++ [LF]) =
+  Ok (mkSS (upd_nth i (fun _ => set_created_calls g (cs ++ [c'])) G) gotRaceGoroutineFile [] i, true, None).
+Proof.
+  intros G i g f cs c0 c' x Hnth Hcs Hpf.
+  rewrite (scan_line (mkSS (upd_nth i (fun _ => g) G) gotRaceGoroutineFunc [] i) _ eq_refl (file_line_not_cr f)).
+  unfold scan_body. cbn [st goroutines gindex].
+  rewrite (nth_error_upd_const _ G i x g Hnth).
+  unfold file_step. rewrite Hcs, last_opt_app1, Hpf.
+  unfold with_gs, with_state, ret. cbn [goroutines st sprefix gindex].
+  rewrite upd_last_app1, upd_nth_twice. reflexivity.
+Qed.
+
+(* the two lines of one frame *)
+Lemma cr_frame_steps : forall G i x g0 text calls stt f,
+  stt = gotRaceGoroutineHeader \/ stt = gotRaceGoroutineFile ->
+  nth_error G i = Some x -> frame_rt f ->
+  Steps (mkSS (upd_nth i (fun _ => cr_goroutine g0 text calls) G) stt [] i) (race_frame_lines f)
+        (mkSS (upd_nth i (fun _ => cr_goroutine g0 text (calls ++ [call_of_frame f])) G) gotRaceGoroutineFile [] i).
+Proof.
+  intros G i x g0 text calls stt f Hst Hnth ((c0 & Hpf & Hfile) & Hl1 & Hl2).
+  unfold race_frame_lines.
+  apply (Steps_cons _ _ (mkSS (upd_nth i (fun _ => cr_goroutine g0 text (calls ++ [c0])) G) gotRaceGoroutineFunc [] i)).
+  - destruct Hst as [-> | ->]; reflexivity.
+  - exact Hl1.
+  - rewrite (scan_cr_func G i (cr_goroutine g0 text calls) stt f c0 x Hst Hnth Hpf).
+    rewrite cr_created, <- app_assoc, cr_set_created. reflexivity.
+  - apply Steps_one; [reflexivity|exact Hl2|].
+    rewrite (scan_cr_file G i (cr_goroutine g0 text (calls ++ [c0])) f (Calls (CreatedBy (GSig g0)) ++ calls) c0
+               (call_of_frame f) x Hnth).
+    + rewrite <- app_assoc, cr_set_created. reflexivity.
+    + rewrite cr_created, app_assoc. reflexivity.
+    + exact Hfile.
+Qed.
+
+Lemma cr_frames_steps : forall frames G i x g0 text calls stt,
+  stt = gotRaceGoroutineHeader \/ stt = gotRaceGoroutineFile ->
+  nth_error G i = Some x -> Forall frame_rt frames ->
+  Steps (mkSS (upd_nth i (fun _ => cr_goroutine g0 text calls) G) stt [] i) (race_frames_lines frames)
+        (mkSS (upd_nth i (fun _ => cr_goroutine g0 text (calls ++ map call_of_frame frames)) G)
+              (match frames with [] => stt | _ => gotRaceGoroutineFile end) [] i).
+Proof.
+  induction frames as [|f frames IH]; intros G i x g0 text calls stt Hst Hnth Hall.
+  - cbn [race_frames_lines flat_map map]. rewrite app_nil_r. apply Steps_nil.
+  - inversion Hall as [|f' fs' Hf Hfs]; subst.
+    change (race_frames_lines (f :: frames)) with (race_frame_lines f ++ race_frames_lines frames).
+    apply (Steps_app _ _ _ _ _ (cr_frame_steps G i x g0 text calls stt f Hst Hnth Hf)).
+    specialize (IH G i x g0 text (calls ++ [call_of_frame f]) gotRaceGoroutineFile (or_intror eq_refl) Hnth Hfs).
+    cbn [map]. rewrite <- app_assoc in IH. cbn [app] in IH.
+    destruct frames; exact IH.
+Qed.
+
+(* one creation section: header and frames *)
+Lemma creation_section_steps : forall G stt idx c i g0,
+  stt = betweenRaceOperations \/ stt = betweenRaceGoroutines ->
+  rc_gid c < dec_limit -> rc_frames c <> [] -> Forall frame_rt (rc_frames c) ->
+  find_id (rc_gid c) 0 G = Some i -> nth_error G i = Some g0 ->
+  Steps (mkSS G stt [] idx) (race_creation_lines c)
+        (mkSS (upd_nth i (fun _ => cr_goroutine g0 (race_state_text (rc_running c)) (map call_of_frame (rc_frames c))) G)
+              gotRaceGoroutineFile [] i).
+Proof.
+  intros G stt idx c i g0 Hst Hn Hne Hall Hfind Hnth. unfold race_creation_lines.
+  apply (Steps_cons _ _ (mkSS (upd_nth i (fun _ => cr_goroutine g0 (race_state_text (rc_running c)) []) G)
+                              gotRaceGoroutineHeader [] i)).
+  - destruct Hst as [-> | ->]; reflexivity.
+  - apply creation_header_no_lf.
+  - apply scan_creation_header; assumption.
+  - pose proof (cr_frames_steps (rc_frames c) G i g0 g0 (race_state_text (rc_running c)) []
+                  gotRaceGoroutineHeader (or_introl eq_refl) Hnth Hall) as H.
+    cbn [app] in H. destruct (rc_frames c) as [|f fs] eqn:E; [congruence|]. exact H.
 Qed.
